@@ -23,7 +23,10 @@ Clauses(c) ==
   IF c.skip = 1 THEN {} ELSE       \* (C14) a trait definition that pickle refuses cleanly: outside the quantifier
   LET g == Fix(c.cfg)
       useFast == HasFast(g)
-  IN Cmp(c.a, Assign(g, c.tok), Members(g, c.tok, "assign"), "assign")
+      \* route "prop": the attribute is Property(trait) - the factory installs the trait's Python-level validate method
+      \* (traits.py: fvalidate = handler.validate), whose result is what the setter receives
+      viaPy == c.route = "prop"
+  IN Cmp(c.a, IF viaPy THEN Py(g, c.tok) ELSE Assign(g, c.tok), Members(g, c.tok, IF viaPy THEN "py" ELSE "assign"), "assign")
      \cup Cmp(c.f, Assign(g, c.tok), Members(g, c.tok, "assign"), "cpath")
      \cup Cmp(c.p, Py(g, c.tok), Members(g, c.tok, "py"), "pypath")
      \* C01 on the observed value itself
